@@ -143,3 +143,30 @@ Theorem C04_undecodable_is_400 : forall r cur,
   exists e, req_cond r cur = Some e /\ ecode e = 400%N.
 Proof. exact undecodable_is_400. Qed.
 Print Assumptions C04_undecodable_is_400.
+
+(** * One tag in the four places, for every tag a backend can report
+
+    [announce] is what server.go writes for a backend's tag in the ETag header of PUT,
+    GET and HEAD and in getetag of PROPFIND ([tags_agree] compares the four observed
+    texts with it on every run, over arbitrary byte strings as tags).  The text is the
+    same in the four places, decodes to the tag, and is accepted back by
+    ConditionalMatch.MatchETag. *)
+Theorem C04_announce_meets_spec : forall (is_print_hi : N -> bool) t,
+  let a := announce is_print_hi t in
+  tags_spec_ok t a a a a (match a with Some s => match_back s t | None => None end) = true.
+Proof. exact announce_meets_spec. Qed.
+Print Assumptions C04_announce_meets_spec.
+
+Theorem C04_tags_agree_implies_spec : forall (is_print_hi : N -> bool) t put get head pf,
+  tags_agree is_print_hi t put get head pf = true ->
+  tags_spec_ok t put get head pf (match get with Some s => match_back s t | None => None end) = true.
+Proof. exact tags_agree_implies_spec. Qed.
+Print Assumptions C04_tags_agree_implies_spec.
+
+(** The CalDAV and CardDAV servers hand both header values to the backend unaltered
+    (the model of backend.Put is the identity on them; the [cdav] stage compares what a
+    recording backend receives, byte for byte). *)
+Theorem C04_cdav_options_unaltered : forall im inm,
+  cdav_options (Some im) (Some inm) = (im, inm) /\ cdav_options None None = (""%string, ""%string).
+Proof. exact cdav_options_unaltered. Qed.
+Print Assumptions C04_cdav_options_unaltered.
